@@ -204,8 +204,8 @@ func filterRecordsFromSearchQuery(query *structs.SearchQuery, segmentSearch *Seg
 		doRecLevelSearch = true
 	}
 
-	if query.MatchFilter != nil && query.MatchFilter.NegateMatch {
-		// The dict encoded search above only marks the records that contain the words,
+	if query.IsNegated() {
+		// The dict encoded search above only marks the records that match the positive filter,
 		// the negation is applied in the record level loop below.
 		doRecLevelSearch = true
 	}
@@ -301,7 +301,7 @@ func filterRecordsFromSearchQuery(query *structs.SearchQuery, segmentSearch *Seg
 				nodeRes.StoreGlobalSearchError("filterRecordsFromSearchQuery: Failed to ApplyColumnarSearchQuery", log.ErrorLevel, err)
 				break
 			}
-			if query.MatchFilter != nil && query.MatchFilter.NegateMatch {
+			if query.IsNegated() {
 				if matched || blockHelper.DoesRecordMatch(i) {
 					blockHelper.ClearBit(i)
 				} else {
